@@ -1,4 +1,5 @@
-/-! Driver executable for family `gov` — placeholder until the family is built. -/
+import Whv.Driver.Gov
+/-! Driver executable for family `gov` (C15): case lines on stdin, verdict lines on stdout. -/
 def main : IO UInt32 := do
-  IO.eprintln "family not built"
-  return 2
+  Whv.Driver.GovFam.run (← IO.getStdin)
+  return 0
